@@ -77,6 +77,8 @@ def make_scratch(tag):
     p = os.path.join(crate, "Cargo.toml")
     s = open(p).read()
     s2 = re.sub(r'\[\[test\]\]\nname\s*=\s*"signals".*?harness\s*=\s*false\n', "", s, flags=re.S)
+    # dev-dependencies are only used by tests/ and examples/, which are not copied (std-logger needs the real `log`)
+    s2 = re.sub(r"\[dev-dependencies\]\n(?:[^\[\n][^\n]*\n|\n)*", "", s2)
     # `log` -> no-op stand-in (kani/logstub): identical to the verified configuration (no logger, level Off)
     shutil.copytree(os.path.join(KANI_DIR, "logstub"), os.path.join(d, "logstub"))
     s2 += '\n[patch.crates-io]\nlog = { path = "../logstub" }\n'
